@@ -1,6 +1,7 @@
 CONSTANTS
   MaxId = 8
   ZeroIncBug = FALSE
+  DeadlineBug = "none"
   Want = {"C24_StaysUp", "C24_NoViolation"}
 SPECIFICATION TSpec
 CHECK_DEADLOCK FALSE
